@@ -75,6 +75,7 @@ def one(ctx, data, meta, html, tmpdir, rng, edits=True):
             try:
                 with docx2python(io.BytesIO(data), html=html) as d:
                     rd = d.docx_reader; expect = {}; marks = []
+                    rd.save(os.path.join(tmpdir, 'o0.docx'))          # an earlier save of the same reader must not freeze what later saves write
                     seen = set()
                     for f in rd.content_files():
                         if f.path in seen: continue        # a part related twice: the first File is the one handed out for editing
@@ -124,6 +125,14 @@ def run(ctx):
             if rng.random() < 0.5: pkg.add('word/media/blob%d.bin' % rng.randint(0, 9), bytes(rng.randrange(256) for _ in range(rng.choice([0, 10, 3000]))))
             if rng.random() < 0.4: pkg.add('docProps/app.xml', '<Properties xmlns="http://schemas.openxmlformats.org/officeDocument/2006/extended-properties"><Pages>1</Pages></Properties>')
             if rng.random() < 0.3: pkg.add('word/theme/theme1.xml', '<a:theme xmlns:a="http://schemas.openxmlformats.org/drawingml/2006/main" name="x"/>')
+            if rng.random() < 0.25:
+                # a content part that is ALSO the target of a relationship of some other type, declared first
+                rel = pkg.get('word/_rels/document.xml.rels').decode()
+                import re as _re
+                m = _re.search(r'Target="(header1\.xml|footnotes\.xml|footer1\.xml)"', rel)
+                if m:
+                    rel = rel.replace('<Relationship ', f'<Relationship Id="rIdT" Type="http://example.com/relationships/pageTemplate" Target="{m.group(1)}"/><Relationship ', 1)
+                    pkg.set('word/_rels/document.xml.rels', rel); ctx.count('part related under two types')
             data = pkg.to_bytes(rng=rng)
             one(ctx, data, meta, rng.random() < 0.5, tmpdir, rng)
             if ctx.evaluations % 15 == 1: ctx.sample({'members': [m for m, _ in pkg.members]})
